@@ -115,6 +115,8 @@ def zipper_handler(th, ex, st, args, kwargs):
 
 def build(ctx):
     m = ctx.mod('_pandas')
+    # replays are fixed native batteries per obligation family (the counterexamples are interpretations of uninterpreted pandas operations)
+    ctx.default_meta = dict(replay_without_model=True)
     bf = base_facts
 
     def theories(**kw):
